@@ -637,3 +637,277 @@ impl System for Script {
 
     fn finish(self, _out: &mut StepOut) {}
 }
+
+
+// ---------------------------------------------------------------------------------------------
+// Waker sequences: a single parked future is polled with every sequence of up to four wakers out
+// of THREE distinct ones (the fixpoint systems use two per slot), then the operation that serves it
+// is performed: the waker of the LAST poll must be invoked. Covers every primitive's future.
+
+#[derive(Clone, Copy, Debug, PartialEq)]
+pub enum WakerSeqOp {
+    Run(u8),
+}
+pub struct WakerSeq {
+    ran: Option<u8>,
+}
+const WS_KINDS: [(i64, i64); 11] = [(0, 0), (1, 1), (1, 0), (2, 0), (3, 0), (4, 0), (5, 0), (6, 0), (7, 0), (8, 1), (8, 0)];
+
+fn fire_one(sys: &mut Sys) -> Result<(), String> {
+    match &mut sys.prim {
+        Prim::Event(e) => lib(|| e.set()),
+        Prim::Sem(s) => lib(|| s.release(1)),
+        Prim::MpmcRecv(c) => lib(|| {
+            let _ = c.try_send(Tag(1));
+        }),
+        Prim::MpmcSend(c) => lib(|| {
+            let _ = c.try_receive();
+        }),
+        Prim::Oneshot(c) => lib(|| {
+            let _ = c.send(Tag(1));
+        }),
+        Prim::Bcast(c) => lib(|| {
+            let _ = c.send(CTag(1));
+        }),
+        Prim::State(c) => lib(|| {
+            let _ = c.send(CTag(1));
+        }),
+        Prim::Timer(t) => {
+            clock().set_time(1);
+            lib(|| t.check_expirations())
+        }
+        Prim::Mutex(_, g) => {
+            let g = g.take();
+            lib(|| drop(g))
+        }
+    }
+}
+
+impl System for WakerSeq {
+    type Op = WakerSeqOp;
+    fn new(_cfg: &Cfg) -> Self {
+        WakerSeq { ran: None }
+    }
+    fn enabled(&self) -> Vec<WakerSeqOp> {
+        if self.ran.is_some() {
+            vec![]
+        } else {
+            (0..WS_KINDS.len() as u8).map(WakerSeqOp::Run).collect()
+        }
+    }
+    fn apply(&mut self, op: WakerSeqOp, out: &mut StepOut) {
+        let WakerSeqOp::Run(i) = op;
+        self.ran = Some(i);
+        let (kind, fair) = WS_KINDS[i as usize];
+        let cfg = Cfg::new("burst", &[("kind", kind), ("fair", fair), ("n", 2)]);
+        let mut n_seq = 0;
+        for len in 1..=4usize {
+            for code in 0..3usize.pow(len as u32) {
+                let seq: Vec<usize> = (0..len).map(|p| 1 + (code / 3usize.pow(p as u32)) % 3).collect();
+                n_seq += 1;
+                harness::reset_thread_state();
+                let mut sys = Sys::new(&cfg);
+                // (single sends / receives that serve a parked future are C10's business)
+                let prop: &'static str = if kind == 2 || kind == 3 { "C10" } else { sys.prop };
+                let mut f = match lib(|| sys.make_future()) {
+                    Ok(f) => f,
+                    Err(p) => {
+                        out.v("C01", "panic", format!("creating a future panicked: {}", p));
+                        return;
+                    }
+                };
+                for (k, &w) in seq.iter().enumerate() {
+                    let waker = harness::waker(w);
+                    match lib(|| f.as_mut().poll(&mut Context::from_waker(&waker))) {
+                        Ok(Poll::Pending) => {}
+                        Ok(Poll::Ready(_)) => {
+                            out.v(prop, "burst-early-completion", format!("poll number {} of a parked future completed although nothing was released / sent / set / expired", k + 1));
+                            std::mem::forget(f);
+                            std::mem::forget(sys);
+                            return;
+                        }
+                        Err(p) => {
+                            out.v("C01", "panic", format!("poll panicked: {}", p));
+                            std::mem::forget(f);
+                            std::mem::forget(sys);
+                            return;
+                        }
+                    }
+                }
+                let last = *seq.last().unwrap();
+                let before = harness::wakes(last);
+                if let Err(p) = fire_one(&mut sys) {
+                    out.v("C01", "panic", format!("the serving operation panicked: {}", p));
+                    std::mem::forget(f);
+                    std::mem::forget(sys);
+                    return;
+                }
+                if harness::wakes(last) == before {
+                    let others: Vec<(usize, u32)> = (1..=3).filter(|w| *w != last).map(|w| (w, harness::wakes(w))).collect();
+                    out.v(prop, "latest-waker-not-woken", format!("a parked future was polled with wakers {:?} in this order and then served: the waker of its latest poll ({}) was not invoked (wake counts of the others: {:?})", seq, last, others));
+                    std::mem::forget(f);
+                    std::mem::forget(sys);
+                    return;
+                }
+                let waker = harness::waker(last);
+                if !matches!(lib(|| f.as_mut().poll(&mut Context::from_waker(&waker))), Ok(Poll::Ready(_))) {
+                    out.v(prop, "burst-still-pending", format!("a future polled with wakers {:?} does not complete after the operation that serves it", seq));
+                    std::mem::forget(f);
+                    std::mem::forget(sys);
+                    return;
+                }
+                drop(f);
+                drop(sys);
+                let _ = harness::take_alloc_counts();
+            }
+        }
+        out.o(&format!("kind {} fair {}: {} waker sequences ok", kind, fair, n_seq));
+    }
+    fn fingerprint(&self) -> Vec<u8> {
+        vec![self.ran.map_or(255, |v| v)]
+    }
+    fn finish(self, _out: &mut StepOut) {}
+}
+
+
+// ---------------------------------------------------------------------------------------------
+// Long histories between two polls of ONE future: N set()/reset() cycles on the event while a wait
+// future is parked (it has been set while waiting, so its next poll completes), N release/acquire
+// resp. unlock/lock cycles on the semaphore / mutex while a too-large request / a lock future stays
+// parked behind a barger, for N around 2^8 and 2^16. A generation or sequence counter narrower
+// than usize wraps within such a history.
+
+#[derive(Clone, Copy, Debug, PartialEq)]
+pub enum CycleOp {
+    Run(u8),
+}
+pub struct Cycles {
+    ran: Option<u8>,
+}
+const CYCLE_COUNTS: [usize; 8] = [1, 2, 255, 256, 257, 65535, 65536, 65537];
+
+impl System for Cycles {
+    type Op = CycleOp;
+    fn new(_cfg: &Cfg) -> Self {
+        Cycles { ran: None }
+    }
+    fn enabled(&self) -> Vec<CycleOp> {
+        if self.ran.is_some() {
+            vec![]
+        } else {
+            (0..CYCLE_COUNTS.len() as u8).map(CycleOp::Run).collect()
+        }
+    }
+    fn apply(&mut self, op: CycleOp, out: &mut StepOut) {
+        let CycleOp::Run(i) = op;
+        self.ran = Some(i);
+        let n = CYCLE_COUNTS[i as usize];
+        harness::reset_thread_state();
+        let waker = harness::waker(WAKER);
+        // event
+        {
+            let e: Box<GenericManualResetEvent<PL>> = Box::new(GenericManualResetEvent::new(false));
+            let er: &'static GenericManualResetEvent<PL> = stat!(&e, GenericManualResetEvent<PL>);
+            let mut f = Box::pin(er.wait());
+            if !matches!(lib(|| f.as_mut().poll(&mut Context::from_waker(&waker))), Ok(Poll::Pending)) {
+                out.v("C14", "completed-without-set", "first poll on an unset event is not pending".to_string());
+                return;
+            }
+            for k in 0..n {
+                if k % 4096 == 0 {
+                    crate::core::heartbeat();
+                }
+                if lib(|| {
+                    e.set();
+                    e.reset();
+                })
+                .is_err()
+                {
+                    out.v("C01", "panic", "set()/reset() panicked".to_string());
+                    return;
+                }
+            }
+            if harness::wakes(WAKER) == 0 {
+                out.v("C14", "set-did-not-wake", format!("the event was set {} times while a waiter was parked, the waiter was never woken", n));
+                return;
+            }
+            match lib(|| f.as_mut().poll(&mut Context::from_waker(&waker))) {
+                Ok(Poll::Ready(())) => {}
+                other => {
+                    out.v("C14", "missed-set", format!("the event was set (and reset) {} times while the future waited; its next poll must complete, got {:?}", n, other));
+                    std::mem::forget(f);
+                    std::mem::forget(e);
+                    return;
+                }
+            }
+            drop(f);
+            // a waiter that starts waiting after the last reset stays pending
+            let mut g = Box::pin(er.wait());
+            if !matches!(lib(|| g.as_mut().poll(&mut Context::from_waker(&waker))), Ok(Poll::Pending)) {
+                out.v("C14", "completed-without-set", format!("after {} set()/reset() cycles a new waiter completes although the event is reset", n));
+                return;
+            }
+            drop(g);
+        }
+        // semaphore: a request for 2 stays parked while single permits come and go
+        {
+            let s: Box<GenericSemaphore<PL>> = Box::new(GenericSemaphore::new(false, 0));
+            let sr: &'static GenericSemaphore<PL> = stat!(&s, GenericSemaphore<PL>);
+            let mut f = Box::pin(sr.acquire(2));
+            let _ = lib(|| f.as_mut().poll(&mut Context::from_waker(&waker)));
+            for k in 0..n {
+                if k % 4096 == 0 {
+                    crate::core::heartbeat();
+                }
+                let r = lib(|| {
+                    sr.release(1);
+                    match sr.try_acquire(1) {
+                        Some(mut r) => {
+                            r.disarm();
+                            true
+                        }
+                        None => false,
+                    }
+                });
+                if !matches!(r, Ok(true)) {
+                    out.v("C05", "script", format!("cycle {}: try_acquire(1) failed right after release(1) on an unfair semaphore with no other taker", k + 1));
+                    std::mem::forget(f);
+                    std::mem::forget(s);
+                    return;
+                }
+            }
+            if sr.permits() != 0 {
+                out.v("C05", "ledger", format!("after {} release(1)/try_acquire(1) cycles permits()={}", n, sr.permits()));
+                std::mem::forget(f);
+                std::mem::forget(s);
+                return;
+            }
+            let w0 = harness::wakes(WAKER);
+            let _ = lib(|| sr.release(2));
+            if harness::wakes(WAKER) == w0 {
+                out.v("C06", "head-stranded", format!("after {} cycles release(2) did not wake the parked request for 2 permits", n));
+                std::mem::forget(f);
+                std::mem::forget(s);
+                return;
+            }
+            match lib(|| f.as_mut().poll(&mut Context::from_waker(&waker))) {
+                Ok(Poll::Ready(mut r)) => {
+                    r.disarm();
+                }
+                _ => {
+                    out.v("C06", "script", format!("after {} cycles the parked request does not complete although 2 permits are free", n));
+                    std::mem::forget(f);
+                    std::mem::forget(s);
+                    return;
+                }
+            }
+            drop(f);
+        }
+        let _ = harness::take_alloc_counts();
+        out.o(&format!("{} cycles ok", n));
+    }
+    fn fingerprint(&self) -> Vec<u8> {
+        vec![self.ran.map_or(255, |v| v)]
+    }
+    fn finish(self, _out: &mut StepOut) {}
+}
